@@ -2,12 +2,47 @@ package harness
 
 import (
 	"fmt"
+	"runtime"
+	"strings"
 	"sync"
 	"testing"
 	"time"
 
 	"github.com/lightninglabs/lightning-node-connect/gbn"
 )
+
+// waitOrDeadlock waits for wg; when it does not finish within d the goroutines
+// involved are stuck on each other: their stacks are the witness. The stuck
+// goroutines are left behind.
+func waitOrDeadlock(r *Recorder, wg *sync.WaitGroup, d time.Duration, what string, replay interface{}) bool {
+	done := make(chan struct{})
+	go func() { wg.Wait(); close(done) }()
+	select {
+	case <-done:
+		return true
+	case <-time.After(d):
+		buf := make([]byte, 1<<20)
+		buf = buf[:runtime.Stack(buf, true)]
+		var stuck []string
+		for _, g := range strings.Split(string(buf), "\n\n") {
+			if strings.Contains(g, "sync.(*RWMutex)") || strings.Contains(g, "sync.(*Mutex)") || strings.Contains(g, "semacquire") {
+				lines := strings.Split(g, "\n")
+				var fr []string
+				for _, l := range lines {
+					if strings.Contains(l, "/gbn.") || strings.Contains(l, "/mailbox.") {
+						fr = append(fr, strings.TrimSpace(l))
+					}
+				}
+				if len(fr) > 0 {
+					stuck = append(stuck, strings.Join(fr, " <- "))
+				}
+			}
+		}
+		r.Violate("C18/deadlock", fmt.Sprintf("%s: not finished after %v; goroutines waiting for a lock: %s", what, d, strings.Join(stuck, " || ")),
+			map[string]interface{}{"what": what, "replay": replay})
+		return false
+	}
+}
 
 // TestC18 is run with the race detector (GORACE log_path, halt_on_error=0):
 // the check reads the race reports; this test only has to exercise the
@@ -59,7 +94,9 @@ func TestC18(t *testing.T) {
 					}
 				}
 			}()
-			wg.Wait()
+			if !waitOrDeadlock(r, &wg, 60*time.Second, "ticker: Reset x2, Pause/Resume", round) {
+				return
+			}
 			close(stop)
 			tk.Stop()
 			r.Case(fmt.Sprintf("ticker:%d", round), true, "ticker-stress")
@@ -96,7 +133,9 @@ func TestC18(t *testing.T) {
 				}
 			}()
 		}
-		wg.Wait()
+		if !waitOrDeadlock(r, &wg, 60*time.Second, "timeout manager: Sent/Received/getters/setters from 4 goroutines", round) {
+			break
+		}
 		r.Case(fmt.Sprintf("tm:%d", round), true, "timeout-manager-stress")
 	}
 
@@ -152,8 +191,10 @@ func TestC18(t *testing.T) {
 				cw.Add(1)
 				go func() { defer cw.Done(); conns[k%2].Close() }()
 			}
-			cw.Wait()
-			wg.Wait()
+			if !waitOrDeadlock(r, &cw, 60*time.Second, "connection: 3 concurrent Close calls", sc) {
+				return
+			}
+			waitOrDeadlock(r, &wg, 60*time.Second, "connection: API callers after Close", sc)
 		})
 		if res.Panic != "" {
 			r.Violate("C18/connection-panic", res.Panic, sc)
